@@ -379,7 +379,40 @@ def local_defs(f):
             for p in n["params"]:
                 for name, i in pat_bindings(p):
                     out[i] = ("closure", n, p)
+    DEFS_BODY[id(out)] = f["body"]
     return out
+
+
+DEFS_BODY = {}     # id(defs dict) -> the function body it was computed from
+
+MUTATORS = ("push", "pop", "insert", "remove", "clear", "truncate", "extend", "extend_from_slice", "retain", "retain_mut", "append", "drain", "swap_remove", "sort", "sort_by",
+            "sort_by_key", "sort_unstable", "sort_unstable_by", "sort_unstable_by_key", "reverse", "dedup", "dedup_by", "dedup_by_key", "swap", "rotate_left", "rotate_right",
+            "resize", "split_off", "fill", "iter_mut", "as_mut_slice", "last_mut", "first_mut", "get_mut")
+
+
+def mutated_after_init(defs, lid):
+    """is the `let mut` local lid changed after its initialisation (assigned, borrowed mutably, or the receiver of a mutating collection method)?
+    None when the function body is not known."""
+    body = DEFS_BODY.get(id(defs))
+    if body is None:
+        return None
+    for n in walk(body):
+        k = n.get("k")
+        if k in ("assign", "assignop"):
+            l = n["l"]
+            while isinstance(l, dict) and l.get("k") in ("index", "field", "unary", "paren"):
+                l = l["e"]
+            if isinstance(l, dict) and l.get("k") == "local" and l["id"] == lid:
+                return True
+        if k == "mcall" and n["name"] in MUTATORS:
+            r = n["recv"]
+            while isinstance(r, dict) and r.get("k") in ("ref", "paren", "field", "index"):
+                r = r["e"]
+            if isinstance(r, dict) and r.get("k") == "local" and r["id"] == lid:
+                return True
+        if k == "ref" and n.get("mut") and isinstance(n.get("e"), dict) and n["e"].get("k") == "local" and n["e"]["id"] == lid:
+            return True
+    return False
 
 
 def simple_let_init(defs, i):
